@@ -1260,6 +1260,93 @@ theorem VecOk.arraysOk {s : Store α} {v : Vec} (h : VecOk s v) :
 
 end world
 
+/-! ### several transform instances -/
+section instances
+variable {α : Type} [LinearOrder α] [Add α] [Sub α]
+
+theorem sync_plain (eps : α) (w : World α) (t : Trans) (h : t.kind = .plain) : sync eps w t = w := by
+  unfold sync syncValues
+  cases w.vecs[t.params]? <;> cases w.vecs[t.constants]? <;> simp [h]
+
+theorem Trans.params_mem_idx (t : Trans) : t.params ∈ t.idx := by
+  unfold Trans.idx; cases t.kind <;> simp
+theorem Trans.constants_mem_idx (t : Trans) : t.constants ∈ t.idx := by
+  unfold Trans.idx; cases t.kind <;> simp
+theorem Trans.bc_mem_idx (t : Trans) (h : t.kind ≠ .plain) : t.bc ∈ t.idx := by
+  unfold Trans.idx; cases hk : t.kind <;> simp_all
+
+theorem sync_length (eps : α) (w : World α) (t : Trans) : (sync eps w t).vecs.length = w.vecs.length := by
+  unfold sync; split
+  · rfl
+  · exact update_length _ _ _
+
+theorem tstep_length (eps : α) (w : World α) (t : Trans) (op : TOp α) :
+    (tstep eps w t op).1.vecs.length = w.vecs.length := by
+  cases op <;> simp only [tstep, sync_length]
+  · split
+    · split
+      · exact update_length _ _ _
+      · split <;> exact update_length _ _ _
+    · rfl
+  · split
+    · split
+      · exact update_length _ _ _
+      · split
+        · exact update_length _ _ _
+        · rfl
+    · rfl
+  · exact update_length _ _ _
+  · exact update_length _ _ _
+  · exact update_length _ _ _
+
+/-- a fresh vector shows its defaults and an unset hit flag -/
+theorem mk_view [OfNat α 0] {eps : α} {s s1 : Store α} {names : List String}
+    {defaults mins maxs : Option (List (XR α))} {cb ch an : Bool} {c : Vec}
+    (e : mk eps s names defaults mins maxs cb ch an = .ok (s1, c)) :
+    (view s1 c).values = (view s1 c).defaults ∧ (view s1 c).hit = false := by
+  unfold mk at e
+  split at e
+  · simp at e
+  · rename_i lo hi d _
+    simp only [Except.ok.injEq] at e
+    have e2 := congrArg Prod.snd e
+    have e1 := congrArg Prod.fst e
+    simp only at e1 e2
+    subst e1; subst e2
+    constructor
+    · simp [view, mkFrom, Store.alloc]
+    · rfl
+
+/-- one more constructed vector: the world stays well formed, every existing vector shows what it showed, the new
+one (last) shows its defaults with the hit flag off -/
+theorem add_spec [OfNat α 0] (eps : α) (w w' : World α) (sp : Spec α) (hw : WorldOk w)
+    (e : World.add eps w sp = .ok w')
+    (hmins : ∀ m, sp.mins = some m → m.any XR.isNaN = false)
+    (hmaxs : ∀ m, sp.maxs = some m → m.any XR.isNaN = false) :
+    WorldOk w' ∧ w'.vecs.length = w.vecs.length + 1 ∧ (∀ j, j < w.vecs.length → w'.view j = w.view j)
+      ∧ ∃ vw, w'.view w.vecs.length = some vw ∧ vw.values = vw.defaults ∧ vw.hit = false := by
+  unfold World.add at e
+  split at e
+  · simp at e
+  · rename_i s v emk
+    simp only [Except.ok.injEq] at e; subst e
+    obtain ⟨sp', ok, _⟩ := mk_ok emk hmins hmaxs
+    obtain ⟨h1, h2⟩ := append_ok hw sp' ok
+    obtain ⟨v1, v2⟩ := mk_view emk
+    refine ⟨h1, by simp, h2, view s v, ?_, v1, v2⟩
+    simp [World.view]
+
+/-- the instances of a process: the world is well formed, each non-plain instance has its inner vector apart from
+its own params / constants, the vectors of an instance exist, and NO vector belongs to two instances -/
+structure MOk (m : MWorld α) : Prop where
+  world : WorldOk m.world
+  wf : ∀ (i : Nat) (t : Trans), m.insts[i]? = some t → t.kind ≠ .plain → t.bc ≠ t.params ∧ t.bc ≠ t.constants
+  lt : ∀ (i : Nat) (t : Trans), m.insts[i]? = some t → ∀ j ∈ t.idx, j < m.world.vecs.length
+  sep : ∀ (i i' : Nat) (t t' : Trans), m.insts[i]? = some t → m.insts[i']? = some t' → i ≠ i' →
+    ∀ j ∈ t'.idx, j ∉ t.idx
+
+end instances
+
 /-! ### the margin test against actual clipping -/
 section hitlemmas
 variable {α : Type} [LinearOrder α] [AddCommGroup α] [IsOrderedAddMonoid α]
